@@ -557,7 +557,8 @@ func (st *Runtime) executeList(list *ListNode) (returnValue reflect.Value) {
 						}
 					}
 					if valVarSlot < 0 {
-						st.context = rangeValue
+						// like a variable when it is resolved: an element of an interface slice is the value it holds
+						st.context = indirectEface(rangeValue)
 					}
 					vt(st, "range.iter")
 					returned(st.executeList(node.List))
